@@ -431,6 +431,9 @@ def _byte_length(fb, v, depth=0):
         return isinstance(f, App) and f.fn in ("core::str::<impl str>::find", "core::str::<impl str>::rfind") and _byte_length(fb, v.args[1], depth + 1)
     if v.fn.endswith("len_utf8"):
         return True
+    if v.fn == ".0" and len(v.args) == 1 and isinstance(v.args[0], App) and v.args[0].fn == "as:Some" and len(v.args[0].args) == 1:
+        f = rel.canon(v.args[0].args[0])     # the byte offset str::find / rfind returns is a character boundary
+        return isinstance(f, App) and f.fn in ("core::str::<impl str>::find", "core::str::<impl str>::rfind")
     return False
 
 
